@@ -200,6 +200,21 @@ fn c02_oracle(m: &MLib, ctx: &mut Ctx) -> Result<(), String> {
         ctx.nontrivial(hash_of(m));
         ctx.sample("decoded by the reference decoder", || summary(m));
     }
+    // every 16th library (by content) also goes through save() onto a path that already holds an
+    // older, longer file: the file must hold exactly the stream, nothing left over
+    if hash_of(m) % 16 == 0 {
+        ctx.label("file written by save() over an older, longer file");
+        let path = scratch_path("c02.gds");
+        let _ = std::fs::write(&path, vec![0x5Au8; bytes.len() + 4096]);
+        let r = lib.save(&path);
+        let file = std::fs::read(&path);
+        let _ = std::fs::remove_file(&path);
+        r.map_err(|e| format!("save() failed although write() succeeded: {:?}", e))?;
+        let file = file.map_err(|e| e.to_string())?;
+        if file != bytes {
+            return Err(format!("the file written by save() ({} bytes) is not the stream write() produces ({} bytes); {}", file.len(), bytes.len(), if file.len() > bytes.len() && file[..bytes.len()] == bytes[..] { "the stream is followed by left-over bytes of the file that was there before".to_string() } else { "content differs".to_string() }));
+        }
+    }
     let (dm, consumed) = S::decode(&bytes).map_err(|e| format!("written bytes are not a well-formed GDSII stream: {}", e))?;
     if consumed != bytes.len() {
         return Err(format!("{} bytes follow the ENDLIB record: the stream must end with it", bytes.len() - consumed));
